@@ -154,7 +154,13 @@ def run_ceremony(
     elif out_path.exists():
         out_path.unlink()
     cli_files = files_via == "cli"
+    # the files the configuration names when the command line names the real ones: they exist (the configuration schema wants
+    # an existing input file), hold nothing usable, and must neither be read as the KSR nor written to
     decoy = workdir / "not-this-one"
+    if cli_files:
+        decoy.mkdir(exist_ok=True)
+        (decoy / "ksr.xml").write_text("<KSR this is the file the configuration names, the command line names another one")
+        (decoy / "skr.xml").unlink(missing_ok=True)
     cfgd = config_dict(
         sc,
         "s",
@@ -199,6 +205,7 @@ def run_ceremony(
     obs["file_after"] = out_path.read_bytes() if out_path.exists() else None
     obs["written"] = obs["file_after"] is not None and obs["file_after"] != preexisting
     obs["sign_ops"] = sum(1 for r in obs["log"] if r["op"] == "sign")
+    obs["stray_output"] = cli_files and (decoy / "skr.xml").exists()  # something was written to the path the command line overrides
     # ---- model line ----------------------------------------------------------------------------
     try:
         config = KSKMConfig.from_dict(copy.deepcopy(cfgd))
